@@ -4,6 +4,14 @@ package main
 
 // C16 driver, part 2: instrumented client, running the real APIEstablisher and
 // the real revision.Reconciler, direct monitors, generators.
+//
+// One WORLD per scenario (c16World): one simstore, one manager client, ONE APIEstablisher and
+// ONE revision.Reconciler, as revision.Setup builds them once per process; every step of the
+// scenario goes through these same objects, so state carried from one call to the next shows
+// up against the per-call model. The world also contains a third party that writes at chosen
+// instants (c16Act.At: before/inside the validate phase, between the phases, before each real
+// write, inside ReleaseObjects), an informer cache that lags or misses (c16Stale,
+// c16StaleRefs) and an API server that answers failing calls with a chosen error class.
 
 import (
 	"bytes"
@@ -11,10 +19,12 @@ import (
 	"encoding/json"
 	"fmt"
 	"io"
+	"reflect"
 	"sort"
 	"strings"
 	"sync"
 
+	kerrors "k8s.io/apimachinery/pkg/api/errors"
 	metav1 "k8s.io/apimachinery/pkg/apis/meta/v1"
 	"k8s.io/apimachinery/pkg/apis/meta/v1/unstructured"
 	"k8s.io/apimachinery/pkg/runtime"
@@ -48,11 +58,28 @@ type c16Call struct {
 	Mode  string // est | rel | "" (not a package object)
 }
 
+// c16Write is one non-dry-run write of the revision to a package object as the API server saw
+// it: the stored object immediately before the call (after whatever the third party did up to
+// that instant) and immediately after it.
+type c16Write struct {
+	Verb string
+	Key  string
+	Mode string // est | rel
+	Pre  *c16Obj
+	Post *c16Obj
+}
+
+// c16View is what the Get of a validate goroutine returned (nil Obj = NotFound).
+type c16View struct {
+	Obj *c16Obj
+}
+
 // c16Client serialises calls into simstore and lets the fault plan see the
 // submitted object (body) so that a deterministic "the API server rejects this
 // object" predicate can be injected for dry-run and real calls alike. It treats
 // TypeMeta exactly as controller-runtime's client does: a cached Get sets it,
-// Update/Status().Update preserve it, Create leaves it cleared.
+// Update/Status().Update preserve it, Create leaves it cleared. It is built ONCE per
+// scenario (like the manager's client) and told which step is running.
 type c16Client struct {
 	*Store
 	mu      sync.Mutex
@@ -64,15 +91,43 @@ type c16Client struct {
 	seen    map[string]int
 	fired   map[int]bool // third-party writes of the step already performed (index into step.TP)
 	applied []c16Act     // ... in the order they were performed
+	// per call, set by plan()
+	curIdx   int
+	curPhase string
+	curClass string  // error class an injected failure of this call is answered with
+	preWrite *c16Obj // stored object right before this (real) write
+	preKey   string
+	writes   []c16Write
+	views    map[int]c16View // validate phase: what the Get of object idx returned
+	revGets  int             // Gets of the revision object in this step
 }
 
-// thirdParty performs the step's third-party writes scheduled right before the real
-// write of object idx. It runs inside simstore's Before-the-call window (the plan
-// callback: after the call is counted, before it is evaluated against the store),
-// with c.mu held, so it is atomic with respect to the establisher's goroutines.
-func (c *c16Client) thirdParty(idx int) {
+func (c *c16Client) begin(s *c16Step) {
+	c.mu.Lock()
+	defer c.mu.Unlock()
+	c.step = s
+	c.mode = "est"
+	c.pending = -1
+	c.calls = nil
+	c.refKeys = nil
+	c.seen = map[string]int{}
+	c.fired = map[int]bool{}
+	c.applied = nil
+	c.writes = nil
+	c.views = map[int]c16View{}
+	c.revGets = 0
+}
+
+// thirdParty performs the step's third-party writes scheduled at (at, idx). It runs inside
+// simstore's Before-the-call window (the plan callback: after the call is counted, before it is
+// evaluated against the store), with c.mu held, so it is atomic with respect to the
+// establisher's goroutines.
+func (c *c16Client) thirdParty(at string, idx int) {
 	for k, a := range c.step.TP {
-		if a.I != idx || c.fired[k] {
+		if a.At == "pre" {
+			a.At = ""
+		}
+		if a.At != at || a.I != idx || c.fired[k] {
 			continue
 		}
 		c.fired[k] = true
@@ -99,9 +154,9 @@ func c16ApplyActs(objs []c16Obj, acts []c16Act) []c16Obj {
 		}
 		out = kept
 		if a.Act == "put" {
-			ow := a.Owners
-			if ow == nil {
-				ow = []c16Ref{}
+			ow := []c16Ref{}
+			for _, r := range a.Owners {
+				ow = append(ow, c16Ref{UID: r.UID, Ctrl: r.Ctrl, Block: r.Block}) // names are not part of the view
 			}
 			out = append(out, c16Obj{Key: a.Key, Body: a.Body, Owners: ow})
 		}
@@ -114,36 +169,195 @@ func c16IsPkgKey(key string) bool {
 	return strings.HasPrefix(key, "Composition/") || strings.HasPrefix(key, "XRD/") || strings.HasPrefix(key, "CRD/")
 }
 
+var c16KindGVK = map[string]schema.GroupVersionKind{
+	"Composition": xv1.CompositionGroupVersionKind,
+	"XRD":         xv1.CompositeResourceDefinitionGroupVersionKind,
+	"CRD":         {Group: "apiextensions.k8s.io", Version: "v1", Kind: "CustomResourceDefinition"},
+}
+
+// c16PeekKey is the stored package object with this key in canonical form (nil = absent).
+func c16PeekKey(st *Store, key string) *c16Obj {
+	kind, name := c16SplitKey(key)
+	gvk, ok := c16KindGVK[kind]
+	if !ok {
+		return nil
+	}
+	u := st.Peek(gvk.GroupKind(), "", name)
+	if u == nil {
+		return nil
+	}
+	return c16ObjOfMeta(key, u)
+}
+
+func c16ObjOfMeta(key string, u metav1.Object) *c16Obj {
+	o := &c16Obj{Key: key, Body: c16BodyOf(u), Owners: []c16Ref{}}
+	for _, r := range u.GetOwnerReferences() {
+		o.Owners = append(o.Owners, c16Ref{UID: c16UIDNum(r.UID), Ctrl: c16TriStr(r.Controller), Block: c16TriStr(r.BlockOwnerDeletion)})
+	}
+	return o
+}
+
+// c16ClassErr is the API error of the given class.
+func c16ClassErr(class, key string) error {
+	_, name := c16SplitKey(key)
+	gr := schema.GroupResource{Group: "example.org", Resource: "things"}
+	switch class {
+	case "notFound":
+		return kerrors.NewNotFound(gr, name)
+	case "alreadyExists":
+		return kerrors.NewAlreadyExists(gr, name)
+	case "invalid":
+		return kerrors.NewInvalid(schema.GroupKind{Group: "example.org", Kind: "Thing"}, name, nil)
+	case "forbidden":
+		return kerrors.NewForbidden(gr, name, fmt.Errorf("injected"))
+	case "timeout":
+		return kerrors.NewServerTimeout(gr, "update", 1)
+	case "tooMany":
+		return kerrors.NewTooManyRequests("injected", 1)
+	case "unavailable":
+		return kerrors.NewServiceUnavailable("injected")
+	case "deadline":
+		return context.DeadlineExceeded
+	}
+	return nil
+}
+
+// classify replaces an injected plain failure by the error class the scenario asks for.
+func (c *c16Client) classify(err error, key string) error {
+	if err == nil || c.curClass == "" || err == ErrCrashed {
+		return err
+	}
+	if e := c16ClassErr(c.curClass, key); e != nil {
+		return e
+	}
+	return err
+}
+
+// staleFor returns the scenario's cache staleness for the validate-phase Get of object idx.
+func (c *c16Client) staleFor(idx int) *c16Stale {
+	if c.mode != "est" || idx < 0 {
+		return nil
+	}
+	for k := range c.step.Stale {
+		if c.step.Stale[k].I == idx {
+			return &c.step.Stale[k]
+		}
+	}
+	return nil
+}
+
+// olderVersion finds, in simstore's history of the object, the version `back` writes before the
+// stored one (versions carrying the stored resourceVersion do not count).
+func (c *c16Client) olderVersion(gk schema.GroupKind, name string, back int) map[string]any {
+	cur := c.Store.Peek(gk, "", name)
+	curRV := ""
+	if cur != nil {
+		curRV = cur.GetResourceVersion()
+	}
+	h := c.Store.History[objKey{gk, "", name}]
+	n := 0
+	for i := len(h) - 1; i >= 0; i-- {
+		rv, _, _ := unstructured.NestedString(h[i], "metadata", "resourceVersion")
+		if rv == curRV {
+			continue
+		}
+		n++
+		if n == back {
+			return h[i]
+		}
+	}
+	return nil
+}
+
 func (c *c16Client) Get(ctx context.Context, key client.ObjectKey, obj client.Object, opts ...client.GetOption) error {
 	c.mu.Lock()
 	defer c.mu.Unlock()
 	c.pending = -1
+	c.curIdx, c.curPhase, c.curClass = -1, "", ""
 	err := c.Store.Get(ctx, key, obj, opts...)
-	if _, isU := obj.(runtime.Unstructured); err == nil && !isU {
-		if gvk, e := apiutil.GVKForObject(obj, c.Store.Scheme()); e == nil {
-			obj.GetObjectKind().SetGroupVersionKind(gvk) // CacheReader.Get
+	_, isU := obj.(runtime.Unstructured)
+	gvk, gerr := apiutil.GVKForObject(obj, c.Store.Scheme())
+	if err == ErrCrashed {
+		return err
+	}
+	if c.curClass != "" && err != nil {
+		err = c.classify(err, key.Name)
+	}
+	// the informer cache behind a typed Get of the validate phase
+	if st := c.staleFor(c.curIdx); st != nil && !isU && c.curPhase == "get" && gerr == nil && (err == nil || kerrors.IsNotFound(err)) {
+		switch {
+		case st.Miss:
+			err = kerrors.NewNotFound(schema.GroupResource{Group: gvk.Group, Resource: strings.ToLower(gvk.Kind)}, key.Name)
+		case st.Back > 0:
+			if m := c.olderVersion(gvk.GroupKind(), key.Name, st.Back); m != nil {
+				_ = c.Store.fromMap(m, obj)
+				err = nil
+				v := c16ObjOfMeta(c.step.Objs[c.curIdx].Key, obj)
+				st.Body, st.Owners = v.Body, v.Owners
+			} else {
+				st.I = -1 - st.I // no older version: the cache is up to date (entry dropped after the run)
+			}
+		default:
+			t := c16Build(c.step.Objs[c.curIdx].Key, st.Body)
+			t.SetOwnerReferences(c16MkRefs(st.Owners))
+			t.SetResourceVersion("0")
+			t.SetUID(types.UID("uid-stale"))
+			reflect.ValueOf(obj).Elem().Set(reflect.ValueOf(t).Elem())
+			err = nil
 		}
 	}
+	// the informer cache behind the reconciler's Get of the revision itself
+	if err == nil && !isU && gerr == nil && gvk.GroupKind() == c16RevGK && c.step != nil && c.step.Op == "reconcile" {
+		c.revGets++
+		if sr := c.step.StaleRefs; sr != nil && c.revGets == 1 {
+			if pr, ok := obj.(pkgv1.PackageRevision); ok {
+				pr.SetObjects(c16TypedRefs(sr.Refs))
+				pr.SetResourceVersion("0")
+			}
+		}
+	}
+	if err == nil && !isU && gerr == nil {
+		obj.GetObjectKind().SetGroupVersionKind(gvk) // CacheReader.Get
+	}
+	if c.mode == "est" && c.curPhase == "get" && c.curIdx >= 0 && (err == nil || kerrors.IsNotFound(err)) {
+		v := c16View{}
+		if err == nil {
+			v.Obj = c16ObjOfMeta(c.step.Objs[c.curIdx].Key, obj)
+		}
+		c.views[c.curIdx] = v
+	}
 	return err
+}
+
+func (c *c16Client) noteWrite(verb string) {
+	if c.curPhase != "real" || c.preKey == "" {
+		return
+	}
+	c.writes = append(c.writes, c16Write{Verb: verb, Key: c.preKey, Mode: c.mode, Pre: c.preWrite, Post: c16PeekKey(c.Store, c.preKey)})
 }
 
 func (c *c16Client) Create(ctx context.Context, obj client.Object, opts ...client.CreateOption) error {
 	c.mu.Lock()
 	defer c.mu.Unlock()
 	c.pending = c16BodyOf(obj)
-	return c.Store.Create(ctx, obj, opts...)
+	c.curIdx, c.curPhase, c.curClass, c.preKey, c.preWrite = -1, "", "", "", nil
+	err := c.Store.Create(ctx, obj, opts...)
+	c.noteWrite("create")
+	return c.classify(err, obj.GetName())
 }
 
 func (c *c16Client) Update(ctx context.Context, obj client.Object, opts ...client.UpdateOption) error {
 	c.mu.Lock()
 	defer c.mu.Unlock()
 	c.pending = c16BodyOf(obj)
+	c.curIdx, c.curPhase, c.curClass, c.preKey, c.preWrite = -1, "", "", "", nil
 	gvk := obj.GetObjectKind().GroupVersionKind()
 	err := c.Store.Update(ctx, obj, opts...)
 	if !gvk.Empty() {
 		obj.GetObjectKind().SetGroupVersionKind(gvk) // client.resetGroupVersionKind
 	}
-	return err
+	c.noteWrite("update")
+	return c.classify(err, obj.GetName())
 }
 
 type c16Status struct {
@@ -155,6 +369,7 @@ func (w c16Status) Update(ctx context.Context, obj client.Object, opts ...client
 	w.c.mu.Lock()
 	defer w.c.mu.Unlock()
 	w.c.pending = -1
+	w.c.curIdx, w.c.curPhase, w.c.curClass, w.c.preKey, w.c.preWrite = -1, "", "", "", nil
 	gvk := obj.GetObjectKind().GroupVersionKind()
 	err := w.SubResourceWriter.Update(ctx, obj, opts...)
 	if !gvk.Empty() {
@@ -190,6 +405,9 @@ func (c *c16Client) plan(ci CallInfo) Outcome {
 		c.calls = append(c.calls, c16Call{Verb: ci.Verb, Key: key, Idx: 0, Phase: "tls"})
 		for _, f := range s.Faults {
 			if f.Phase == "tls" {
+				if f.Out == "fail" {
+					c.curClass = f.Class
+				}
 				return c16Outcome(f.Out)
 			}
 		}
@@ -246,11 +464,26 @@ func (c *c16Client) plan(ci CallInfo) Outcome {
 		}
 	}
 	c.calls = append(c.calls, c16Call{Verb: ci.Verb, Key: key, Dry: ci.DryRun, Body: c.pending, Idx: idx, Phase: phase, Mode: c.mode})
-	if phase == "real" && c.mode == "est" {
-		c.thirdParty(-1) // "between the phases": before the first real write
+	c.curIdx, c.curPhase = idx, phase
+	// the third party, right before this call is evaluated
+	switch {
+	case c.mode == "est" && phase == "real":
+		c.thirdParty("", -1) // "between the phases": before the first real write
 		if idx >= 0 {
-			c.thirdParty(idx)
+			c.thirdParty("", idx)
 		}
+	case c.mode == "est" && phase == "get" && idx >= 0:
+		c.thirdParty("vget", idx)
+	case c.mode == "est" && phase == "dry" && idx >= 0:
+		c.thirdParty("vdry", idx)
+	case c.mode == "rel" && phase == "get" && idx >= 0:
+		c.thirdParty("rget", idx)
+	case c.mode == "rel" && phase == "real" && idx >= 0:
+		c.thirdParty("rupd", idx)
+	}
+	if phase == "real" {
+		c.preKey = key
+		c.preWrite = c16PeekKey(c.Store, key)
 	}
 	if ci.IsWrite() {
 		for _, b := range s.RejBodies {
@@ -266,6 +499,9 @@ func (c *c16Client) plan(ci CallInfo) Outcome {
 	}
 	for _, f := range s.Faults {
 		if f.I == idx && f.Phase == phase {
+			if f.Out == "fail" {
+				c.curClass = f.Class
+			}
 			return c16Outcome(f.Out)
 		}
 	}
@@ -309,7 +545,7 @@ func c16SeedRevs(st *Store, revs []c16RevState) {
 		pr.SetUID(c16UID(rv.UID))
 		pr.SetFinalizers([]string{"revision.pkg.crossplane.io"})
 		pr.Spec.DesiredState = pkgv1.PackageRevisionInactive
-		pr.Spec.Package = "example.org/pkg:v1"
+		pr.Spec.Package = fmt.Sprintf("example.org/pkg-%d:v%d", rv.UID/10, rv.UID%10)
 		pr.Spec.Revision = int64(rv.UID % 10)
 		pr.Status.ObjectRefs = c16TypedRefs(rv.Refs)
 		st.Seed(pr)
@@ -324,7 +560,12 @@ func c16StatusRefs(st *Store, uid int) []c16XRef {
 	if u == nil {
 		return out
 	}
-	refs, _, _ := unstructured.NestedSlice(u.Object, "status", "objectRefs")
+	return c16RefsOfMap(u.Object)
+}
+
+func c16RefsOfMap(m map[string]any) []c16XRef {
+	out := []c16XRef{}
+	refs, _, _ := unstructured.NestedSlice(m, "status", "objectRefs")
 	for _, r := range refs {
 		m, _ := r.(map[string]any)
 		kind, _ := m["kind"].(string)
@@ -350,12 +591,16 @@ type c16Mgr struct {
 
 func (m c16Mgr) GetClient() client.Client { return m.c }
 
-type c16Cache struct{ content []byte }
+// c16Cache is the package cache of the (long-lived) reconciler: the image of every revision
+// by revision name.
+type c16Cache struct{ content map[string][]byte }
 
-func (c c16Cache) Has(string) bool                      { return true }
-func (c c16Cache) Get(string) (io.ReadCloser, error)    { return io.NopCloser(bytes.NewReader(c.content)), nil }
-func (c c16Cache) Store(string, io.ReadCloser) error    { return nil }
-func (c c16Cache) Delete(string) error                  { return nil }
+func (c *c16Cache) Has(string) bool { return true }
+func (c *c16Cache) Get(id string) (io.ReadCloser, error) {
+	return io.NopCloser(bytes.NewReader(c.content[id])), nil
+}
+func (c *c16Cache) Store(string, io.ReadCloser) error { return nil }
+func (c *c16Cache) Delete(string) error               { return nil }
 
 type c16Lock struct{}
 
@@ -420,19 +665,120 @@ func c16FirstOrder(calls []c16Call, mode, phase string, n int) []int {
 	return out
 }
 
-func c16RunStep(st *Store, s *c16Step) (c16StepObs, []c16Call, []c16Act) {
-	cl := &c16Client{Store: st, step: s, seen: map[string]int{}, fired: map[int]bool{}, pending: -1, mode: "est"}
+// c16World is what lives as long as the package manager's process: the API server, the manager's
+// client, ONE APIEstablisher and ONE revision.Reconciler (see revision.Setup*), driven through
+// all the steps of a scenario.
+type c16World struct {
+	st    *Store
+	cl    *c16Client
+	est   *revision.APIEstablisher
+	rec   *revision.Reconciler
+	cache *c16Cache
+	spy   *c16EstSpy
+}
+
+// c16EstSpy hands the reconciler the real APIEstablisher and notes whether its last Establish
+// call reported success (a reconcile can still end in an error afterwards).
+type c16EstSpy struct {
+	*revision.APIEstablisher
+	calls  int
+	lastOK bool
+}
+
+func (e *c16EstSpy) Establish(ctx context.Context, objs []runtime.Object, parent pkgv1.PackageRevision, control bool) ([]xpv1.TypedReference, error) {
+	refs, err := e.APIEstablisher.Establish(ctx, objs, parent, control)
+	e.calls++
+	e.lastOK = err == nil
+	return refs, err
+}
+
+func c16NewWorld(scn *c16Scn) *c16World {
+	st := NewStore(c16Scheme)
+	st.KeepHistory = true
+	c16Seed(st, scn.Store)
+	c16SeedRevs(st, scn.Revs)
+	w := &c16World{st: st, cache: &c16Cache{content: map[string][]byte{}}}
+	w.cl = &c16Client{Store: st}
+	w.est = revision.NewAPIEstablisher(w.cl, "crossplane-system", 1)
+	w.spy = &c16EstSpy{APIEstablisher: w.est}
+	return w
+}
+
+func (w *c16World) reconciler() *revision.Reconciler {
+	if w.rec == nil {
+		w.rec = revision.NewReconciler(c16Mgr{c: w.cl},
+			revision.WithNewPackageRevisionFn(func() pkgv1.PackageRevision { return &pkgv1.ConfigurationRevision{} }),
+			revision.WithCache(w.cache),
+			revision.WithParser(parser.New(c16MetaScheme, c16ObjScheme)),
+			revision.WithLinter(xpkg.NewConfigurationLinter()),
+			revision.WithDependencyManager(c16Lock{}),
+			revision.WithConfigStore(c16Cfg{}),
+			revision.WithEstablisher(w.spy),
+			revision.WithFeatureFlags(&feature.Flags{}),
+		)
+	}
+	return w.rec
+}
+
+// c16Trace is what the instrumented client saw during one step.
+type c16Trace struct {
+	calls   []c16Call
+	applied []c16Act
+	writes  []c16Write
+	views   map[int]c16View
+	listed  []c16XRef // status.objectRefs as the reconciler read it (stale or not)
+	// the first call of the validate phase (a Get of a package object, a dry-run write) that the
+	// API server answered with an error, and the non-dry-run writes issued in the same step
+	refused    string
+	realWrites []string
+}
+
+// c16ResolveStaleRefs turns a "Back" request into the list the revision had that many status
+// writes ago (nil = no older list: the staleness is dropped).
+func c16ResolveStaleRefs(st *Store, s *c16Step) {
+	sr := s.StaleRefs
+	if sr == nil || s.Op != "reconcile" {
+		s.StaleRefs = nil
+		return
+	}
+	if sr.Refs == nil {
+		sr.Refs = []c16XRef{}
+	}
+	if sr.Back <= 0 {
+		return
+	}
+	cur := mustJSON(c16StatusRefs(st, s.Parent.UID))
+	h := st.History[objKey{c16RevGK, "", c16RevName(s.Parent.UID)}]
+	n, last := 0, cur
+	for i := len(h) - 1; i >= 0; i-- {
+		l := c16RefsOfMap(h[i])
+		if j := mustJSON(l); j != last {
+			n++
+			last = j
+			if n == sr.Back {
+				sr.Refs = l
+				return
+			}
+		}
+	}
+	s.StaleRefs = nil
+}
+
+func (w *c16World) runStep(s *c16Step) (c16StepObs, c16Trace) {
+	st, cl, e := w.st, w.cl, w.est
+	cl.begin(s)
 	st.Revive()
 	st.Log = nil
 	conc := s.Conc
 	if conc < 1 {
 		conc = 1
 	}
-	e := revision.NewAPIEstablisher(cl, "crossplane-system", conc)
+	e.MaxConcurrentPackageEstablishers = conc
 	obs := c16StepObs{Refs: []c16RefObs{}, Log: []c16Log{}}
 	var err error
 	var panicked string
 	requeue := false
+	tr := c16Trace{}
 	switch s.Op {
 	case "release":
 		cl.mode = "rel"
@@ -449,11 +795,15 @@ func c16RunStep(st *Store, s *c16Step) (c16StepObs, []c16Call, []c16Act) {
 		panicked = Guard(func() { err = e.ReleaseObjects(context.Background(), parent) })
 	case "reconcile":
 		name := c16RevName(s.Parent.UID)
-		before := c16StatusRefs(st, s.Parent.UID)
-		for _, r := range before {
+		c16ResolveStaleRefs(st, s)
+		tr.listed = c16StatusRefs(st, s.Parent.UID)
+		if s.StaleRefs != nil {
+			tr.listed = s.StaleRefs.Refs
+		}
+		for _, r := range tr.listed {
 			cl.refKeys = append(cl.refKeys, r.Key)
 		}
-		if !s.Control && len(before) > 0 {
+		if !s.Control && len(tr.listed) > 0 {
 			cl.mode = "rel"
 		}
 		// environment: the package manager sets labels, owner references and the desired state
@@ -468,16 +818,9 @@ func c16RunStep(st *Store, s *c16Step) (c16StepObs, []c16Call, []c16Act) {
 			_ = unstructured.SetNestedField(u.Object, ds, "spec", "desiredState")
 		})
 		st.Log = nil
-		r := revision.NewReconciler(c16Mgr{c: cl},
-			revision.WithNewPackageRevisionFn(func() pkgv1.PackageRevision { return &pkgv1.ConfigurationRevision{} }),
-			revision.WithCache(c16Cache{content: c16PackageStream(s.Objs)}),
-			revision.WithParser(parser.New(c16MetaScheme, c16ObjScheme)),
-			revision.WithLinter(xpkg.NewConfigurationLinter()),
-			revision.WithDependencyManager(c16Lock{}),
-			revision.WithConfigStore(c16Cfg{}),
-			revision.WithEstablisher(e),
-			revision.WithFeatureFlags(&feature.Flags{}),
-		)
+		w.cache.content[name] = c16PackageStream(s.Objs)
+		r := w.reconciler()
+		w.spy.calls = 0
 		st.Plan = cl.plan
 		panicked = Guard(func() {
 			var res reconcile.Result
@@ -508,11 +851,22 @@ func c16RunStep(st *Store, s *c16Step) (c16StepObs, []c16Call, []c16Act) {
 		}
 	}
 	st.Plan = nil
-	if cl.mode == "est" && s.Op != "release" && panicked == "" && !st.Crashed() && err == nil && !requeue {
-		// Establish succeeded without issuing a single real write (nothing to do for an
-		// inactive revision whose objects are absent; an empty package): the validate phase
-		// was passed, so the third party's "between the phases" writes still happen
-		cl.thirdParty(-1)
+	realSeen := false
+	for _, c := range cl.calls {
+		if c.Mode == "est" && c.Phase == "real" {
+			realSeen = true
+		}
+	}
+	// Establish succeeded (the reconcile may still have failed afterwards: a refused status
+	// update) without issuing a single real write (nothing to do for an inactive revision whose
+	// objects are absent; an empty package): the validate phase was passed, so the third
+	// party's "between the phases" writes still happen
+	establishOK := err == nil && !requeue
+	if s.Op == "reconcile" {
+		establishOK = w.spy.calls > 0 && w.spy.lastOK
+	}
+	if cl.mode == "est" && s.Op != "release" && panicked == "" && !st.Crashed() && establishOK && !realSeen {
+		cl.thirdParty("", -1)
 	}
 	switch {
 	case panicked != "":
@@ -526,12 +880,20 @@ func c16RunStep(st *Store, s *c16Step) (c16StepObs, []c16Call, []c16Act) {
 		obs.Result = "ok"
 	}
 	for _, c := range st.Log {
+		key := c16KeyOf(c.GK, c.Name)
+		if !c16IsPkgKey(key) || c.Sub != "" {
+			continue
+		}
+		if cl.mode == "est" && tr.refused == "" {
+			if (c.IsWrite() && c.DryRun && c.Err != "") || (c.Verb == "get" && c.Err != "" && c.Err != "notFound") {
+				tr.refused = fmt.Sprintf("%s %s (dry run: %v) was answered with %q", c.Verb, key, c.DryRun, c.Err)
+			}
+		}
 		if !c.IsWrite() || c.DryRun {
 			continue
 		}
-		if key := c16KeyOf(c.GK, c.Name); c16IsPkgKey(key) {
-			obs.Log = append(obs.Log, c16Log{Verb: c.Verb, Key: key, Err: c.Err, Changed: c.Changed})
-		}
+		tr.realWrites = append(tr.realWrites, c.Verb+" "+key)
+		obs.Log = append(obs.Log, c16Log{Verb: c.Verb, Key: key, Err: c.Err, Changed: c.Changed})
 	}
 	if conc > 1 {
 		sort.SliceStable(obs.Log, func(i, j int) bool {
@@ -563,13 +925,84 @@ func c16RunStep(st *Store, s *c16Step) (c16StepObs, []c16Call, []c16Act) {
 	if s.Op == "release" {
 		s.VOrder, s.EOrder = []int{}, []int{}
 	}
-	return obs, cl.calls, cl.applied
+	// cache entries that turned out not to be stale (no older version) are dropped
+	kept := s.Stale[:0:0]
+	for _, x := range s.Stale {
+		if x.I >= 0 {
+			if x.Owners == nil {
+				x.Owners = []c16Ref{}
+			}
+			kept = append(kept, x)
+		}
+	}
+	s.Stale = kept
+	tr.calls, tr.applied, tr.writes, tr.views = cl.calls, cl.applied, cl.writes, cl.views
+	return obs, tr
+}
+
+// c16Events names what the world made happen in the last c16Run (appended to the scenario class,
+// so that the evidence shows that the interesting interleavings do occur).
+var c16Events map[string]bool
+
+func c16NoteEvents(s *c16Step, so c16StepObs, tr c16Trace) {
+	for _, w := range tr.writes {
+		if w.Pre == nil || w.Post == nil || c16Same(*w.Pre, *w.Post) {
+			continue
+		}
+		for _, a := range tr.applied {
+			if a.Act == "put" && a.Key == w.Key && len(c16ApplyActs(nil, []c16Act{a})) == 1 && c16Same(c16ApplyActs(nil, []c16Act{a})[0], *w.Pre) {
+				c16Events["rewrote-3rd-party-put"] = true
+			}
+		}
+	}
+	real := false
+	for _, c := range tr.calls {
+		if c.Phase == "real" {
+			real = true
+		}
+	}
+	for _, a := range tr.applied {
+		switch a.At {
+		case "vget", "vdry":
+			if !real && so.Result == "err" {
+				c16Events["validation-refused-under-interference"] = true
+			}
+		case "rget", "rupd":
+			for _, l := range so.Log {
+				if l.Key == a.Key && (l.Err == "conflict" || l.Err == "notFound") {
+					c16Events["release-refused-under-interference"] = true
+				}
+			}
+		}
+	}
+	if len(s.Stale) > 0 && len(tr.views) > 0 {
+		if !real && so.Result == "err" {
+			c16Events["validation-refused-on-stale-read"] = true
+		} else {
+			c16Events["stale-read"] = true
+		}
+	}
+	if s.StaleRefs != nil {
+		c16Events["stale-revision"] = true
+	}
+}
+
+func c16EventSuffix() string {
+	var ks []string
+	for k := range c16Events {
+		ks = append(ks, k)
+	}
+	sort.Strings(ks)
+	if len(ks) == 0 {
+		return ""
+	}
+	return " !" + strings.Join(ks, ",")
 }
 
 func c16Run(scn *c16Scn) (c16Obs, []Mon) {
-	st := NewStore(c16Scheme)
-	c16Seed(st, scn.Store)
-	c16SeedRevs(st, scn.Revs)
+	w := c16NewWorld(scn)
+	st := w.st
+	c16Events = map[string]bool{}
 	obs := c16Obs{Steps: []c16StepObs{}}
 	var mons []Mon
 	established := map[string]bool{} // keys established by a revision whose package owner reference resolves
@@ -583,10 +1016,16 @@ func c16Run(scn *c16Scn) (c16Obs, []Mon) {
 		s := &scn.Steps[i]
 		before := c16Snapshot(st)
 		refsBefore := c16StatusRefs(st, s.Parent.UID)
-		so, calls, applied := c16RunStep(st, s)
+		so, tr := w.runStep(s)
+		applied := tr.applied
 		obs.Steps = append(obs.Steps, so)
-		mons = append(mons, c16Monitor(s, before, refsBefore, so, calls, applied)...)
-		releasing := s.Op == "release" || (s.Op == "reconcile" && !s.Control && len(refsBefore) > 0)
+		listed := refsBefore
+		if s.Op == "reconcile" {
+			listed = tr.listed
+		}
+		mons = append(mons, c16Monitor(s, before, listed, so, tr)...)
+		c16NoteEvents(s, so, tr)
+		releasing := s.Op == "release" || (s.Op == "reconcile" && !s.Control && len(listed) > 0)
 		// an object the third party deleted or replaced is the third party's from now on
 		for _, a := range applied {
 			delete(established, a.Key)
@@ -594,11 +1033,11 @@ func c16Run(scn *c16Scn) (c16Obs, []Mon) {
 		before = c16ApplyActs(before, applied)
 		if s.Op == "reconcile" {
 			u := s.Parent.UID
+			refsAfter := c16StatusRefs(st, u)
 			// status.objectRefs is only ever replaced by a successful Establish: a reconcile that
 			// ends in an error (or a crash) must not lose an entry - ReleaseObjects and the
 			// inactive shortcut of the reconciler trust that list to be complete
 			if so.Result != "ok" {
-				refsAfter := c16StatusRefs(st, u)
 				for _, rb := range refsBefore {
 					found := false
 					for _, ra := range refsAfter {
@@ -612,13 +1051,31 @@ func c16Run(scn *c16Scn) (c16Obs, []Mon) {
 					}
 				}
 			}
+			// a reconcile that read the revision out of a lagging cache must not get its view of
+			// status.objectRefs into the API server, nor report success on the strength of it
+			if s.StaleRefs != nil && !strings.HasPrefix(so.Result, "panic") {
+				if mustJSON(refsAfter) != mustJSON(refsBefore) {
+					mons = append(mons, Mon{Sig: "C16:object-refs-written-from-stale-read", Why: fmt.Sprintf("step %d: revision %d was read out of a lagging cache (status.objectRefs %s) and the reconcile changed the stored list from %s to %s", i, u, mustJSON(s.StaleRefs.Refs), mustJSON(refsBefore), mustJSON(refsAfter))})
+				}
+				if so.Result == "ok" {
+					mons = append(mons, Mon{Sig: "C16:success-on-stale-read", Why: fmt.Sprintf("step %d: revision %d was read out of a lagging cache (status.objectRefs %s, stored %s) and the reconcile reported success without the API server having accepted a status update", i, u, mustJSON(s.StaleRefs.Refs), mustJSON(refsBefore))})
+				}
+			}
 			switch {
 			case s.Control:
 				delete(released, u)
 			case so.Result == "ok":
 				keys := map[string]bool{}
-				for _, d := range s.Objs {
-					keys[d.Key] = true
+				hidden := map[int]bool{}
+				for _, x := range s.Stale {
+					hidden[x.I] = true
+				}
+				for k, d := range s.Objs {
+					// (an object the cache hid from the Establish call of this reconcile is released by
+					// the next one, through the list this one recorded - theorem hypothesis `Listed`)
+					if !hidden[k] || len(listed) > 0 {
+						keys[d.Key] = true
+					}
 				}
 				for _, rb := range refsBefore {
 					if rb.Kinded {
@@ -735,13 +1192,119 @@ func c16InStrs(xs []string, x string) bool {
 	return false
 }
 
+// c16IsForeignCtrl: r is a controller reference of somebody who is neither the parent nor its package.
+func c16IsForeignCtrl(r c16Ref, s *c16Step) bool {
+	pkg, hasPkg := c16PkgRef(s.Parent)
+	return r.Ctrl == "true" && r.UID != s.Parent.UID && !(hasPkg && r.UID == pkg.UID)
+}
+
+// c16WriteMonitor evaluates the role laws on every single non-dry-run write of the revision, as
+// the API server saw it: the stored object right before the call (whatever the third party did
+// until then) against the stored object right after it. Independent of the model and of any
+// bookkeeping about the third party.
+func c16WriteMonitor(s *c16Step, listed []c16XRef, writes []c16Write, add func(sig, why string)) {
+	allowed := map[string]bool{}
+	for _, d := range s.Objs {
+		allowed["est "+d.Key] = true
+	}
+	for _, x := range s.Refs {
+		allowed["rel "+x.Key] = true
+	}
+	for _, x := range listed {
+		allowed["rel "+x.Key] = true
+	}
+	pkg, hasPkg := c16PkgRef(s.Parent)
+	me := s.Parent.UID
+	for _, w := range writes {
+		// Establish writes objects of the package only, ReleaseObjects objects named by status.objectRefs only
+		if !allowed[w.Mode+" "+w.Key] {
+			add("C16:wrote-outside-package", fmt.Sprintf("%s %s (%s phase) is neither an object of the revision's package nor named by its status.objectRefs", w.Verb, w.Key, w.Mode))
+		}
+		if w.Post == nil {
+			if w.Pre != nil {
+				add("C16:object-deleted", fmt.Sprintf("the %s of %s by the revision removed it", w.Verb, w.Key))
+			}
+			continue
+		}
+		if w.Pre != nil && c16Same(*w.Pre, *w.Post) {
+			continue // refused, or a no-op
+		}
+		what := fmt.Sprintf("%s %s (%s phase): before %s, after %s", w.Verb, w.Key, w.Mode, mustJSON(w.Pre), mustJSON(w.Post))
+		active := s.Control && w.Mode == "est"
+		if w.Pre == nil {
+			if !active {
+				add("C16:inactive-created", "a revision that is not active created "+what)
+			}
+		} else {
+			for _, r := range w.Pre.Owners {
+				if c16HasUID(w.Post, r.UID) == nil {
+					add("C16:owner-entry-dropped", fmt.Sprintf("the write dropped the owner entry of uid %d: %s", r.UID, what))
+				}
+				if q := c16HasUID(w.Post, r.UID); q != nil && r.UID != me && !(hasPkg && r.UID == pkg.UID) && (q.Ctrl != r.Ctrl || q.Block != r.Block) {
+					if first := c16HasUID(w.Pre, r.UID); first != nil && *first == r {
+						add("C16:foreign-owner-entry-changed", fmt.Sprintf("the write changed the owner entry of uid %d, which is neither the revision nor its package: %s", r.UID, what))
+					}
+				}
+				if active && c16IsForeignCtrl(r, s) {
+					add("C16:wrote-over-foreign-controller", fmt.Sprintf("the object was controlled by uid %d when the active revision's write reached the API server, and the write went through: %s", r.UID, what))
+				}
+			}
+			if !active && w.Pre.Body != w.Post.Body {
+				sig := "C16:inactive-modified-content"
+				if w.Mode == "rel" {
+					sig = "C16:release-modified-content"
+				}
+				add(sig, what)
+			}
+		}
+		for _, r := range w.Post.Owners {
+			if r.Ctrl != "true" {
+				continue
+			}
+			was := false
+			if w.Pre != nil {
+				for _, q := range w.Pre.Owners {
+					if q.UID == r.UID && q.Ctrl == "true" {
+						was = true
+					}
+				}
+			}
+			switch {
+			case was && !(w.Mode == "rel" && r.UID == me):
+			case r.UID == me && active:
+			case r.UID == me && w.Mode == "rel":
+				if f := c16HasUID(w.Post, me); f != nil && f.Ctrl == "true" {
+					add("C16:release-kept-control", "ReleaseObjects wrote the object and the revision is still its controller: "+what)
+				}
+			case r.UID == me:
+				add("C16:inactive-controls", "an inactive revision made itself controller: "+what)
+			default:
+				add("C16:controller-added", fmt.Sprintf("the write made uid %d a controller: %s", r.UID, what))
+			}
+		}
+		mine := c16HasUID(w.Post, me)
+		if mine == nil {
+			add("C16:written-without-owner-entry", "the revision wrote the object without being one of its owners: "+what)
+		} else if active && mine.Ctrl != "true" {
+			add("C16:active-not-controller", "an active revision wrote the object without becoming its controller: "+what)
+		}
+		if w.Mode == "est" && hasPkg && pkg.UID != me {
+			if pr := c16HasUID(w.Post, pkg.UID); pr == nil || pr.Ctrl == "true" {
+				add("C16:package-owner-missing", "written without the package as non-controlling owner: "+what)
+			}
+		}
+	}
+}
+
 // c16Monitor evaluates the property itself on the real run of one step. `applied`
 // are the third-party writes that happened during the step, in order: what the
 // REVISION did is the difference between `after` and the pre-state with those
-// writes applied (a revision can never write over a third-party put - its update
-// carries the resourceVersion it validated - so the third party's last write to a
-// key is final unless the revision creates the object anew after a deletion).
-func c16Monitor(s *c16Step, before0 []c16Obj, refsBefore []c16XRef, so c16StepObs, calls []c16Call, applied []c16Act) []Mon {
+// writes applied (the revision's update carries the resourceVersion it read, so it can
+// only rewrite a third-party put it has read - and then the role laws apply to that rewrite
+// relative to what the third party put; a third-party write it has not read is final unless
+// the revision creates the object anew after a deletion).
+func c16Monitor(s *c16Step, before0 []c16Obj, refsBefore []c16XRef, so c16StepObs, tr c16Trace) []Mon {
+	calls, applied := tr.calls, tr.applied
 	var mons []Mon
 	add := func(sig, why string) { mons = append(mons, Mon{Sig: sig, Why: why}) }
 	if strings.HasPrefix(so.Result, "panic") {
@@ -757,12 +1320,17 @@ func c16Monitor(s *c16Step, before0 []c16Obj, refsBefore []c16XRef, so c16StepOb
 	if len(applied) > 0 {
 		tpNote = " (third-party writes during the step: " + mustJSON(applied) + ")"
 	}
+	if len(s.Stale) > 0 {
+		tpNote += " (stale cached reads: " + mustJSON(s.Stale) + ")"
+	}
 	after := so.Store
 	pkg, hasPkg := c16PkgRef(s.Parent)
 	changed := func(o c16Obj) bool {
 		b := c16Find(before, o.Key)
 		return b == nil || !c16Same(*b, o)
 	}
+	// every single write, as the API server saw it
+	c16WriteMonitor(s, refsBefore, tr.writes, func(sig, why string) { add(sig, why+tpNote) })
 	// nothing is ever deleted and no owner entry is ever dropped
 	for _, b := range before {
 		a := c16Find(after, b.Key)
@@ -772,7 +1340,7 @@ func c16Monitor(s *c16Step, before0 []c16Obj, refsBefore []c16XRef, so c16StepOb
 		}
 		for _, r := range b.Owners {
 			if c16HasUID(a, r.UID) == nil {
-				add("C16:owner-entry-dropped", fmt.Sprintf("%s lost its owner entry for uid %d (op %s)", b.Key, r.UID, s.Op))
+				add("C16:owner-entry-dropped", fmt.Sprintf("%s lost its owner entry for uid %d (op %s)%s", b.Key, r.UID, s.Op, tpNote))
 			}
 		}
 	}
@@ -783,6 +1351,14 @@ func c16Monitor(s *c16Step, before0 []c16Obj, refsBefore []c16XRef, so c16StepOb
 		for _, c := range calls {
 			if c.Verb == "create" && !c.Dry && c.Mode != "" {
 				add("C16:inactive-created", "an inactive revision issued a create of "+c.Key+tpNote)
+			}
+		}
+	}
+	if s.Op == "release" || releasing {
+		// ReleaseObjects issues updates only
+		for _, c := range calls {
+			if c.Verb == "create" && c.Mode == "rel" {
+				add("C16:inactive-created", "ReleaseObjects issued a create of "+c.Key+tpNote)
 			}
 		}
 	}
@@ -824,7 +1400,7 @@ func c16Monitor(s *c16Step, before0 []c16Obj, refsBefore []c16XRef, so c16StepOb
 				continue
 			}
 			if r := c16HasUID(&a, s.Parent.UID); r == nil || r.Ctrl == "true" {
-				add("C16:release-kept-control", a.Key+" written by ReleaseObjects but the revision is still controller or not an owner")
+				add("C16:release-kept-control", a.Key+" written by ReleaseObjects but the revision is still controller or not an owner"+tpNote)
 			}
 			if b := c16Find(before, a.Key); b != nil && b.Body != a.Body {
 				add("C16:release-modified-content", a.Key)
@@ -832,6 +1408,9 @@ func c16Monitor(s *c16Step, before0 []c16Obj, refsBefore []c16XRef, so c16StepOb
 		}
 		if so.Result == "ok" {
 			for _, k := range keys {
+				if touched[k] {
+					continue // the third party's object now
+				}
 				a := c16Find(after, k)
 				if a == nil {
 					continue
@@ -844,19 +1423,27 @@ func c16Monitor(s *c16Step, before0 []c16Obj, refsBefore []c16XRef, so c16StepOb
 		return mons
 	}
 	// establish ---------------------------------------------------------
-	// (1) all-or-nothing, decided from the pre-state only
+	// (1) all-or-nothing. Whether an object is blocked is decided from what the Get of ITS
+	// goroutine returned (the stored object at that instant, or what the cache served): a foreign
+	// controller is refused locally on that very object, and the API server's rejection does
+	// not depend on the store - so whatever the third party does before or afterwards, the
+	// validate phase must fail and the revision must not write.
 	blocked := ""
-	for _, d := range s.Objs {
-		cur := c16Find(before0, d.Key)
+	for i, d := range s.Objs {
+		if s.Control && d.Conv && s.Parent.TLS != "present" {
+			blocked = d.Key + " needs a CA bundle the parent does not have"
+		}
+		v, ok := tr.views[i]
+		if !ok {
+			continue
+		}
+		cur := v.Obj
 		if s.Control && cur != nil {
 			for _, r := range cur.Owners {
 				if r.Ctrl == "true" && r.UID != s.Parent.UID && !(hasPkg && r.UID == pkg.UID) {
 					blocked = fmt.Sprintf("%s is controlled by uid %d", d.Key, r.UID)
 				}
 			}
-		}
-		if s.Control && d.Conv && s.Parent.TLS != "present" {
-			blocked = d.Key + " needs a CA bundle the parent does not have"
 		}
 		submits := cur != nil || s.Control
 		if submits && c16InStrs(s.RejKeys, d.Key) {
@@ -875,11 +1462,16 @@ func c16Monitor(s *c16Step, before0 []c16Obj, refsBefore []c16XRef, so c16StepOb
 	}
 	if blocked != "" {
 		if so.Result == "ok" {
-			add("C16:established-despite-blocked", blocked+" but Establish reported success")
+			add("C16:established-despite-blocked", blocked+" but Establish reported success"+tpNote)
 		}
-		if len(so.Log) > 0 || mustJSON(before0) != mustJSON(after) {
-			add("C16:partial-establish", blocked+" but objects were created or modified: "+mustJSON(so.Log))
+		if len(so.Log) > 0 || mustJSON(before) != mustJSON(after) {
+			add("C16:partial-establish", blocked+" but objects were created or modified: "+mustJSON(so.Log)+tpNote)
 		}
+	}
+	// ... and quite generally: once the API server has refused any call of the validate phase
+	// (whatever the error class, whoever caused it), this Establish issues no real write
+	if tr.refused != "" && len(tr.realWrites) > 0 {
+		add("C16:real-write-after-refused-dry-run", tr.refused+", yet the same Establish went on to "+strings.Join(tr.realWrites, ", ")+tpNote)
 	}
 	// (2) sequentially, no dry-run call follows a real write
 	realSeen := false
@@ -905,7 +1497,7 @@ func c16Monitor(s *c16Step, before0 []c16Obj, refsBefore []c16XRef, so c16StepOb
 		}
 		if c.Phase == "real" {
 			if dry[c.Verb+" "+c.Key] == 0 {
-				add("C16:real-write-without-dry-run", c.Verb+" "+c.Key+" was not validated by a dry run first")
+				add("C16:real-write-without-dry-run", c.Verb+" "+c.Key+" was not validated by a dry run first"+tpNote)
 			}
 		}
 	}
@@ -952,20 +1544,27 @@ func c16Monitor(s *c16Step, before0 []c16Obj, refsBefore []c16XRef, so c16StepOb
 	}
 	// (4) a successful establish covers every object of the package
 	if so.Result == "ok" {
-		for _, d := range s.Objs {
+		staleIdx := map[int]bool{}
+		for _, x := range s.Stale {
+			staleIdx[x.I] = true
+		}
+		for i, d := range s.Objs {
 			if touched[d.Key] {
 				continue // success does not cover an object a third party deleted or replaced meanwhile
+			}
+			if staleIdx[i] {
+				continue // ... nor an object the cache hid from the revision (a miss: "nothing to do")
 			}
 			a := c16Find(after, d.Key)
 			if s.Control {
 				if a == nil {
-					add("C16:active-not-controller", d.Key+" missing after a successful establish")
+					add("C16:active-not-controller", d.Key+" missing after a successful establish"+tpNote)
 				} else if me := c16HasUID(a, s.Parent.UID); me == nil || me.Ctrl != "true" {
-					add("C16:active-not-controller", d.Key+" not controlled after a successful establish")
+					add("C16:active-not-controller", d.Key+" not controlled after a successful establish"+tpNote)
 				}
 			} else if a != nil {
 				if me := c16HasUID(a, s.Parent.UID); me == nil || me.Ctrl == "true" {
-					add("C16:inactive-not-owner", d.Key+" not plainly owned after a successful inactive establish")
+					add("C16:inactive-not-owner", d.Key+" not plainly owned after a successful inactive establish"+tpNote)
 				}
 			}
 		}
@@ -976,7 +1575,8 @@ func c16Monitor(s *c16Step, before0 []c16Obj, refsBefore []c16XRef, so c16StepOb
 // ---------------------------------------------------------------- generator
 
 var (
-	c16Keys = []string{"Composition/a", "Composition/b", "Composition/c", "XRD/a", "XRD/d", "Composition/e", "CRD/x", "CRD/y"}
+	// same name under three kinds (a), a name that is a string prefix of another (a / ab)
+	c16Keys = []string{"Composition/a", "Composition/b", "Composition/c", "XRD/a", "XRD/d", "Composition/e", "CRD/x", "CRD/y", "Composition/ab", "CRD/a"}
 	// reconcile histories: distinct names (status.objectRefs are sorted by an id that ignores a cleared kind)
 	c16HKeys = []string{"Composition/b", "Composition/c", "XRD/a", "XRD/d", "Composition/e"}
 )
@@ -996,6 +1596,10 @@ func c16GenParent(r *Rng, uid int) c16Parent {
 		p.Label = ""
 	case 3: // two owner references carry the package's name: the first one counts
 		p.Owners = append(p.Owners, c16PRef{Name: pkgName, UID: pkgUID, Ctrl: "true", Block: "true"}, c16PRef{Name: pkgName, UID: 95, Ctrl: "nil", Block: "nil"})
+	case 4: // an owner whose name merely STARTS with the package's name comes first
+		p.Owners = append(p.Owners, c16PRef{Name: pkgName + "-old", UID: 95, Ctrl: "nil", Block: "nil"}, c16PRef{Name: pkgName, UID: pkgUID, Ctrl: "true", Block: "true"})
+	case 5: // ... or the package's name starts with that owner's name
+		p.Owners = append(p.Owners, c16PRef{Name: pkgName[:len(pkgName)-1], UID: 95, Ctrl: "nil", Block: "nil"}, c16PRef{Name: pkgName, UID: pkgUID, Ctrl: "true", Block: "true"})
 	case 2: // an unrelated owner first
 		p.Owners = append(p.Owners, c16PRef{Name: "someone", UID: 95, Ctrl: "nil", Block: "nil"}, c16PRef{Name: pkgName, UID: pkgUID, Ctrl: "true", Block: "true"})
 	default:
@@ -1018,31 +1622,51 @@ func c16GenOwners(r *Rng, me int) ([]c16Ref, string) {
 		cls = "uncontrolled"
 	case 1:
 		cls = "uncontrolled+pkg"
-		out = append(out, c16Ref{pkg, "false", "true"})
+		out = append(out, c16Ref{UID: pkg, Ctrl: "false", Block: "true"})
 	case 2:
 		cls = "prevrev"
-		out = append(out, c16Ref{prev, "true", "true"}, c16Ref{pkg, "false", "true"})
+		out = append(out, c16Ref{UID: prev, Ctrl: "true", Block: "true"}, c16Ref{UID: pkg, Ctrl: "false", Block: "true"})
 	case 3:
 		cls = "prevrev-released"
-		out = append(out, c16Ref{prev, "false", "true"}, c16Ref{pkg, "false", "true"})
+		out = append(out, c16Ref{UID: prev, Ctrl: "false", Block: "true"}, c16Ref{UID: pkg, Ctrl: "false", Block: "true"})
 	case 4:
 		cls = "otherpkg"
-		out = append(out, c16Ref{otherRev, "true", "true"}, c16Ref{otherPkg, "false", "true"})
+		out = append(out, c16Ref{UID: otherRev, Ctrl: "true", Block: "true"}, c16Ref{UID: otherPkg, Ctrl: "false", Block: "true"})
 	case 5:
 		cls = "self"
-		out = append(out, c16Ref{me, "true", "true"}, c16Ref{pkg, "false", "true"})
+		out = append(out, c16Ref{UID: me, Ctrl: "true", Block: "true"}, c16Ref{UID: pkg, Ctrl: "false", Block: "true"})
 	case 6:
 		cls = "self-plain"
-		out = append(out, c16Ref{pkg, "false", "true"}, c16Ref{me, Pick(r, []string{"nil", "false"}), Pick(r, []string{"nil", "true"})})
+		out = append(out, c16Ref{UID: pkg, Ctrl: "false", Block: "true"}, c16Ref{UID: me, Ctrl: Pick(r, []string{"nil", "false"}), Block: Pick(r, []string{"nil", "true"})})
 	case 7:
 		cls = "foreign"
-		out = append(out, c16Ref{90, "true", Pick(r, []string{"nil", "true"})})
+		out = append(out, c16Ref{UID: 90, Ctrl: "true", Block: Pick(r, []string{"nil", "true"})})
 	case 8:
 		cls = "pkg-controls"
-		out = append(out, c16Ref{pkg, "true", "true"})
+		out = append(out, c16Ref{UID: pkg, Ctrl: "true", Block: "true"})
 	}
 	if r.Chance(1, 6) {
-		out = append(out, c16Ref{91, "nil", "nil"})
+		out = append(out, c16Ref{UID: 91, Ctrl: "nil", Block: "nil"})
+	}
+	if r.Chance(1, 8) {
+		// an owner entry with the revision's own kind and NAME but another UID (an earlier
+		// incarnation of the revision, deleted and re-created): a different object
+		_, _, myName := c16OwnerIdent(me)
+		ctrl := Pick(r, []string{"nil", "false", "false", "true"})
+		for _, x := range out {
+			if x.Ctrl == "true" {
+				ctrl = "false"
+			}
+		}
+		ns := c16Ref{UID: 80 + me%10, Ctrl: ctrl, Block: "true", Name: myName}
+		if r.Bool() {
+			out = append([]c16Ref{ns}, out...)
+		} else {
+			out = append(out, ns)
+		}
+		if ctrl == "true" {
+			cls = "foreign"
+		}
 	}
 	return out, cls
 }
@@ -1057,9 +1681,74 @@ func c16GenFaults(r *Rng, n int, phases []string, crash bool) []c16Fault {
 		outs = append(outs, "crashBefore", "crashAfter")
 	}
 	for k, m := 0, r.Range(1, 2); k < m; k++ {
-		fs = append(fs, c16Fault{I: r.Intn(n), Phase: Pick(r, phases), Out: Pick(r, outs)})
+		f := c16Fault{I: r.Intn(n), Phase: Pick(r, phases), Out: Pick(r, outs)}
+		if f.Out == "fail" && r.Chance(2, 3) {
+			f.Class = c16GenClass(r, f.Phase)
+		}
+		fs = append(fs, f)
 	}
 	return fs
+}
+
+// c16GenClass draws the API error class a failing call is answered with. A NotFound answer to
+// a Get is not an error class of the call but a statement about the object (the cache-miss
+// dimension, c16Stale.Miss).
+func c16GenClass(r *Rng, phase string) string {
+	cs := []string{"alreadyExists", "invalid", "forbidden", "timeout", "tooMany", "unavailable", "deadline", "notFound"}
+	if phase == "get" || phase == "tls" {
+		cs = cs[:len(cs)-1]
+	}
+	return Pick(r, cs)
+}
+
+// c16GenActs draws 1-2 third-party writes placed at one of `places`, against the key of a drawn
+// index (3/4) or of another index (1/4); keys[i] is the key of object / reference i.
+func c16GenActs(r *Rng, keys []string, me int, places []string) []c16Act {
+	acts := []c16Act{}
+	if len(keys) == 0 {
+		return acts
+	}
+	for k, m := 0, r.Range(1, 2); k < m; k++ {
+		i := r.Intn(len(keys))
+		key := keys[i]
+		if r.Chance(1, 4) {
+			key = keys[r.Intn(len(keys))]
+		}
+		a := c16Act{I: i, At: Pick(r, places), Act: "del", Key: key, Owners: []c16Ref{}}
+		if r.Bool() {
+			a.Act = "put"
+			a.Body = r.Range(1, 4)
+			a.Owners, _ = c16GenOwners(r, me)
+		}
+		acts = append(acts, a)
+	}
+	return acts
+}
+
+// c16GenStale draws cache staleness for 1-2 validate-phase Gets: a miss, or an older version
+// with drawn owner references and content.
+func c16GenStale(r *Rng, n int, me int) []c16Stale {
+	out := []c16Stale{}
+	seen := map[int]bool{}
+	for k, m := 0, r.Range(1, 2); k < m && n > 0; k++ {
+		i := r.Intn(n)
+		if seen[i] {
+			continue
+		}
+		seen[i] = true
+		x := c16Stale{I: i, Owners: []c16Ref{}}
+		if r.Chance(1, 3) {
+			x.Miss = true
+		} else {
+			ow, _ := c16GenOwners(r, me)
+			for _, o := range ow {
+				x.Owners = append(x.Owners, c16Ref{UID: o.UID, Ctrl: o.Ctrl, Block: o.Block})
+			}
+			x.Body = r.Range(1, 4)
+		}
+		out = append(out, x)
+	}
+	return out
 }
 
 // c16GenTP draws third-party writes for the establish phase of a step: mostly
@@ -1104,10 +1793,10 @@ func c16StateNames(m map[string]bool) string {
 	return strings.Join(ks, "+")
 }
 
-func c16GenEstablish(r *Rng, store *[]c16Obj) (c16Step, string) {
+func c16GenEstablish(r *Rng, store *[]c16Obj, provider bool) (c16Step, string) {
 	me := Pick(r, []int{10, 11, 12, 20, 21})
 	tls := "noRuntime"
-	if r.Chance(1, 4) {
+	if r.Chance(1, 4) || (provider && r.Chance(2, 3)) {
 		// a ProviderRevision parent (package 3): the webhook TLS server secret matters
 		me = Pick(r, []int{30, 31, 32})
 		tls = Pick(r, []string{"present", "present", "noName", "missing", "empty"})
@@ -1190,6 +1879,23 @@ func c16GenEstablish(r *Rng, store *[]c16Obj) (c16Step, string) {
 		s.TP = c16GenTP(r, &s, *store, me)
 		if len(s.TP) > 0 {
 			tp = "+tp"
+		}
+	}
+	if !dup && len(s.Objs) > 0 {
+		keys := []string{}
+		for _, d := range s.Objs {
+			keys = append(keys, d.Key)
+		}
+		// the third party writes DURING the validate phase (goroutines run one after the other)
+		if r.Chance(1, 5) {
+			s.Conc = 1
+			s.TP = append(s.TP, c16GenActs(r, keys, me, []string{"vget", "vget", "vdry"})...)
+			tp += "+vtp"
+		}
+		// the informer cache behind the validate-phase Gets lags or misses
+		if r.Chance(1, 8) {
+			s.Stale = c16GenStale(r, len(s.Objs), me)
+			tp += "+stale"
 		}
 	}
 	if tls == "missing" || tls == "empty" {
@@ -1290,6 +1996,22 @@ func c16GenRelease(r *Rng, store *[]c16Obj) (c16Step, string) {
 	if fk != "none" {
 		f = "faulty"
 	}
+	if r.Chance(1, 12) {
+		// the same reference twice
+		s.Refs = append(s.Refs, s.Refs[r.Intn(n)])
+		s.Conc = 1
+		f += "+dup"
+	}
+	if !unk && r.Chance(1, 4) {
+		// the third party writes INSIDE ReleaseObjects (goroutines run one after the other)
+		keys := []string{}
+		for _, x := range s.Refs {
+			keys = append(keys, x.Key)
+		}
+		s.Conc = 1
+		s.TP = c16GenActs(r, keys, me, []string{"rget", "rupd", "rupd"})
+		f += "+rtp"
+	}
 	return s, fmt.Sprintf("rel/%s", f)
 }
 
@@ -1335,7 +2057,7 @@ func c16GenHistory(r *Rng) (c16Scn, string) {
 		desired[20] = true
 	}
 	n := r.Range(3, 9)
-	faulty, racing, rollback, interf := false, false, false, false
+	faulty, racing, rollback, interf, lag := false, false, false, false, false
 	for len(scn.Steps) < n {
 		switch r.Intn(5) {
 		case 0: // upgrade or rollback: the package manager flips the desired states
@@ -1371,6 +2093,35 @@ func c16GenHistory(r *Rng) (c16Scn, string) {
 			s.TP = c16GenTP(r, &s, nil, u)
 			interf = true
 		}
+		if r.Chance(1, 6) {
+			// ... during its validate phase / inside its ReleaseObjects call (index = object of the
+			// package / entry of status.objectRefs)
+			s.Conc = 1
+			s.TP = append(s.TP, c16GenActs(r, c16HKeys[:4], u, []string{"vget", "vdry", "rget", "rupd"})...)
+			for k := range s.TP {
+				if a := &s.TP[k]; a.At == "vget" || a.At == "vdry" {
+					a.I = a.I % len(s.Objs)
+				}
+			}
+			interf = true
+		}
+		if r.Chance(1, 8) {
+			// the cache lags behind the writes of the previous reconciles
+			for k, m := 0, r.Range(1, 2); k < m; k++ {
+				x := c16Stale{I: r.Intn(len(s.Objs)), Owners: []c16Ref{}, Back: r.Range(1, 2)}
+				if r.Chance(1, 4) {
+					x.Miss, x.Back = true, 0
+				}
+				if k == 0 || s.Stale[0].I != x.I {
+					s.Stale = append(s.Stale, x)
+				}
+			}
+			lag = true
+		}
+		if r.Chance(1, 8) {
+			s.StaleRefs = &c16StaleRefs{Refs: []c16XRef{}, Back: r.Range(1, 2)}
+			lag = true
+		}
 		scn.Steps = append(scn.Steps, s)
 	}
 	kind := "upgrade"
@@ -1390,6 +2141,9 @@ func c16GenHistory(r *Rng) (c16Scn, string) {
 	}
 	if interf {
 		cls += "+tp"
+	}
+	if lag {
+		cls += "+lag"
 	}
 	_ = other
 	return scn, cls
@@ -1433,7 +2187,7 @@ func c16GenDeactivate(r *Rng) (c16Scn, string) {
 	start := "seeded"
 	if r.Bool() {
 		for _, d := range old {
-			scn.Store = append(scn.Store, c16Obj{Key: d.Key, Body: d.Body, Owners: []c16Ref{{10, "true", "true"}, {1, "false", "true"}}})
+			scn.Store = append(scn.Store, c16Obj{Key: d.Key, Body: d.Body, Owners: []c16Ref{{UID: 10, Ctrl: "true", Block: "true"}, {UID: 1, Ctrl: "false", Block: "true"}}})
 			rev10.Refs = append(rev10.Refs, c16XRef{Key: d.Key, Kinded: true})
 		}
 		sort.Slice(scn.Store, func(i, j int) bool { return scn.Store[i].Key < scn.Store[j].Key })
@@ -1469,8 +2223,29 @@ func c16GenDeactivate(r *Rng) (c16Scn, string) {
 	if r.Bool() {
 		scn.Steps = append(scn.Steps, step(11, true))
 	}
-	scn.Steps = append(scn.Steps, step(10, false))
-	if r.Chance(1, 3) {
+	deact := step(10, false)
+	world := ""
+	if r.Chance(1, 4) {
+		// the third party (e.g. the new active revision's replica, an administrator) writes inside
+		// the ReleaseObjects call of the deactivation
+		deact.Conc = 1
+		deact.TP = c16GenActs(r, c16HKeys[:n], 10, []string{"rget", "rupd"})
+		world = "/rtp"
+	}
+	if r.Chance(1, 5) {
+		// the reconciler reads the revision out of a lagging cache: an earlier list of its history,
+		// or (the model quantifies over every list) a list that names only some of its objects
+		deact.StaleRefs = &c16StaleRefs{Refs: []c16XRef{}, Back: r.Range(1, 2)}
+		if r.Bool() {
+			deact.StaleRefs.Back = 0
+			for _, d := range old[:r.Range(1, n-1)] {
+				deact.StaleRefs.Refs = append(deact.StaleRefs.Refs, c16XRef{Key: d.Key, Kinded: true})
+			}
+		}
+		world += "/lag"
+	}
+	scn.Steps = append(scn.Steps, deact)
+	if r.Chance(1, 3) || world != "" {
 		scn.Steps = append(scn.Steps, step(10, false))
 	}
 	scn.Steps = append(scn.Steps, step(11, true))
@@ -1481,7 +2256,7 @@ func c16GenDeactivate(r *Rng) (c16Scn, string) {
 	if healed {
 		cls += "/healed"
 	}
-	return scn, cls
+	return scn, cls + world
 }
 
 func c16Gen(r *Rng) (c16Scn, string) {
@@ -1491,15 +2266,71 @@ func c16Gen(r *Rng) (c16Scn, string) {
 		}
 		return c16GenHistory(r)
 	}
+	// (est) / (rel): ONE establisher serves a sequence of 1-3 calls for different parents and
+	// object sets (it is built once per process); nothing may carry over from one call to the next
 	scn := c16Scn{Store: []c16Obj{}, Revs: []c16RevState{}, Steps: []c16Step{}}
-	var s c16Step
-	var cls string
-	if r.Chance(1, 3) {
-		s, cls = c16GenRelease(r, &scn.Store)
-	} else {
-		s, cls = c16GenEstablish(r, &scn.Store)
+	n := 1
+	switch r.Intn(10) {
+	case 0, 1, 2:
+		n = 2
+	case 3:
+		n = 3
 	}
-	scn.Steps = append(scn.Steps, s)
+	// every 20th: the revisions of a provider package one after the other, the first one active
+	// with its webhook TLS secret in place, the others in whatever state theirs is
+	provSeq := r.Chance(1, 20)
+	if provSeq {
+		n = r.Range(2, 3)
+	}
+	cls := ""
+	provider := false
+	for k := 0; k < n; k++ {
+		var s c16Step
+		var c string
+		if !provSeq && r.Chance(1, 3) {
+			s, c = c16GenRelease(r, &scn.Store)
+		} else {
+			s, c = c16GenEstablish(r, &scn.Store, provider || provSeq)
+			if provSeq && k == 0 && s.Parent.TLS != "noRuntime" {
+				s.Control, s.Parent.TLS = true, "present"
+				for j := range s.Faults {
+					if s.Faults[j].Phase == "tls" {
+						s.Faults[j].Phase = "get"
+					}
+				}
+			}
+			provider = s.Parent.TLS != "noRuntime"
+		}
+		scn.Steps = append(scn.Steps, s)
+		if k == 0 || strings.HasPrefix(cls, "trivial") {
+			cls = c
+		}
+	}
+	if n > 1 && !strings.HasPrefix(cls, "trivial") {
+		cls += fmt.Sprintf("+seq%d", n)
+	}
+	// of enrichControlledResource only the CA-bundle refusal is modelled, not the rewriting of the
+	// conversion webhook: a CRD with webhook conversion is established at most once per scenario
+	// and does not exist beforehand
+	uses := map[string]int{}
+	for _, o := range scn.Store {
+		uses[o.Key]++
+	}
+	for _, st := range scn.Steps {
+		for _, d := range st.Objs {
+			uses[d.Key]++
+		}
+		for _, a := range st.TP {
+			uses[a.Key]++
+		}
+	}
+	for k := range scn.Steps {
+		for j := range scn.Steps[k].Objs {
+			if d := &scn.Steps[k].Objs[j]; d.Conv && uses[d.Key] > 1 {
+				d.Conv = false
+			}
+		}
+	}
 	sort.Slice(scn.Store, func(i, j int) bool { return scn.Store[i].Key < scn.Store[j].Key })
 	return scn, cls
 }
@@ -1521,7 +2352,7 @@ func init() {
 			s, cls := c16Gen(c.Rng)
 			base := mustJSON(s)
 			obs, mons := c16Run(&s)
-			c.Emit(s, obs, mons, cls)
+			c.Emit(s, obs, mons, cls+c16EventSuffix())
 			// exhaustive small scope: every single fault (object x phase x outcome) on the
 			// last step of this scenario, when that step runs sequentially
 			if i%every != 0 {
@@ -1548,7 +2379,7 @@ func init() {
 						ls.Conc = 1
 						ls.Faults = []c16Fault{{I: fi, Phase: ph, Out: out}}
 						o2, m2 := c16Run(&v)
-						c.Emit(v, o2, m2, "exh/"+last.Op)
+						c.Emit(v, o2, m2, "exh/"+last.Op+c16EventSuffix())
 					}
 				}
 			}
